@@ -37,6 +37,9 @@ impl DateTimeUtc {
     pub fn signed_duration_since(self, rhs: DateTimeUtc) -> (r: TimeDelta) ensures r.ms as int == self.ms as int - rhs.ms as int { unimplemented!() }
 }
 impl TimeDelta {
+    pub fn num_milliseconds(&self) -> (r: i64) ensures r == self.ms { self.ms }
+    #[verifier::external_body]
+    pub fn num_seconds(&self) -> (r: i64) ensures self.ms >= 0 ==> r == self.ms / 1000, self.ms < 0 ==> r <= 0 { unimplemented!() }
     // chrono: to_std fails exactly for a negative duration
     #[verifier::external_body]
     pub fn to_std(&self) -> (r: Result<Duration, OutOfRangeError>)
